@@ -37,12 +37,14 @@ type AckInj struct {
 	Ch, Seq, St uint8
 }
 
-func (a AckInj) String() string { return fmt.Sprintf("INJ TunnelRes ch=%d seq=%d st=%#x", a.Ch, a.Seq, a.St) }
+func (a AckInj) String() string {
+	return fmt.Sprintf("INJ TunnelRes ch=%d seq=%d st=%#x", a.Ch, a.Seq, a.St)
+}
 
 type c03Params struct {
 	R, T        int
-	senders     int  // concurrent sender goroutines
-	perSender   int  // Sends per sender
+	senders     int // concurrent sender goroutines
+	perSender   int // Sends per sender
 	tcp         bool
 	prefix      int  // acknowledged Sends before exploration starts (wrap)
 	menu        bool // gateway answer menu (faults) per transmission
